@@ -64,8 +64,7 @@ def check(run):
     run.nontrivial = {str(x) for x in run.nontrivial}
     run.sample({"case": cases[0][:400], "impl": io[0][:500]})
     report_diffs(run, diffs, "coq/Client.v", "zvt_feig_terminal::feig", "client")
-    if any(not v.get("no_failing_input_found") for v in run.violations):
-        run.violations = [v for v in run.violations if not v.get("no_failing_input_found")]
+    vlib.prefer_concrete(run)
     return vlib.finish(run, trusted_base=TB, assumptions=["64-bit usize", "tokens over a CP437 alphabet (ASCII + accented, box drawing, Greek, symbols)",
                                                            "terminal id is rendered with to_string(): leading zeros of the 8-digit id are not kept (observation O7)"])
 
